@@ -131,7 +131,7 @@ func genTextBody(t *rapid.T, b *strings.Builder, s secSpec, rsize int, macros []
 		}
 		// dynamically created instructions (pkg/procbuilder dynamical_*.go): the assembler registers them in the
 		// order in which its walk over the sections map meets them
-		kinds = append(kinds, "dyn", "dyn")
+		kinds = append(kinds, "dyn", "dyn", "rsets")
 		if s.callFrag != "" {
 			kinds = append(kinds, "call", "call")
 		}
@@ -168,6 +168,10 @@ func genTextBody(t *rapid.T, b *strings.Builder, s secSpec, rsize int, macros []
 			fmt.Fprintf(b, "        %s\n", rapid.SampledFrom(macros).Draw(t, "mac"))
 		case "dyn":
 			fmt.Fprintf(b, "        %s %s, %s\n", rapid.SampledFrom(dynOps(rsize)).Draw(t, "dynop"), reg(t, nreg, "ra"), reg(t, nreg, "rb"))
+		case "rsets":
+			// the short-immediate form written explicitly (the chooser derives the same family for mov rX, <literal>)
+			n := rapid.IntRange(3, 7).Draw(t, "rsetsbits")
+			fmt.Fprintf(b, "        rsets%d %s, %d\n", n, reg(t, nreg, "ra"), rapid.IntRange(0, (1<<uint(n))-1).Draw(t, "rsetsval"))
 		case "call":
 			fmt.Fprintf(b, "        call4s %s\n", s.callFrag)
 		}
